@@ -452,7 +452,7 @@ func run(c Case) kit.Result {
 
 var spec = kit.Spec[Case]{
 	Prop: "C24", Name: "main",
-	Rule: "1..40 Add/Delete/DeleteKey/DeleteAll/Search/HasValue/HasAny/ForEach(key|all, early stop) calls on two sibling dsindex indexes over one map datastore; keys and values are arbitrary byte strings from prefix families (3-byte aligned so base64url encodings are string prefixes), '/' and NUL bytes, strings that look like encoded keys, extensions/truncations of strings already used, empty (documented errors); every result and, after every call, full enumeration + Search/HasAny of every key ever named are compared with a multimap model; non-trivial = a Search/DeleteKey/HasAny/ForEach on a key while another live key is a proper byte-prefix extension of it (or it extends a live key)",
+	Rule:  "1..40 Add/Delete/DeleteKey/DeleteAll/Search/HasValue/HasAny/ForEach(key|all, early stop) calls on two sibling dsindex indexes over one map datastore; keys and values are arbitrary byte strings from prefix families (3-byte aligned so base64url encodings are string prefixes), '/' and NUL bytes, strings that look like encoded keys, extensions/truncations of strings already used, empty (documented errors); every result and, after every call, full enumeration + Search/HasAny of every key ever named are compared with a multimap model; non-trivial = a Search/DeleteKey/HasAny/ForEach on a key while another live key is a proper byte-prefix extension of it (or it extends a live key)",
 	Quick: 4000, Thorough: 20000,
 	Gen: gen, Run: run,
 }
